@@ -1,6 +1,6 @@
 #!/bin/sh
 # run every registered check (quick tier) on the current tree; summary on stdout
-cd /verif
+cd "$(dirname "$0")/.." || exit 2; mkdir -p out
 for p in $(python3 -c "import json;print(' '.join(c['property_id'] for c in json.load(open('MANIFEST.json'))['checks']))"); do
   t0=$(date +%s)
   ./check $p --tier ${1:-quick} > out/runall_$p.log 2>&1
